@@ -333,6 +333,10 @@ pub fn run(cfg: &Cfg, rep: &mut Report) {
                         ("backreference_in_lookbehind", mk("(?<=(", &la, ")\\1)$"), format!("{}{}", cb, ca), false),
                         ("named_backreference", mk("^(?<n>", &la, ")\\k<n>$"), two.clone(), true),
                         ("class_range", mk("^[", &[a, '-' as u32, a], "]$"), cb.to_string(), true),
+                        // the expansion of a case class must not bring in a padding value
+                        ("literal_vs_nul", mk("^", &la, "$"), "\u{0}".to_string(), false),
+                        ("class_vs_nul", mk("^x?[", &la, "]$"), "\u{0}".to_string(), false),
+                        ("literal_after_literal_vs_del", mk("^x", &la, "$"), "x\u{7f}".to_string(), false),
                     ];
                     let mut cases = cases;
                     if flags.v {
